@@ -642,6 +642,7 @@ def run_sqlite(case):
         require(stale_id not in left, 'sqlite:stale_clients_of_an_earlier_build_kept',
                 lambda: f'opening a builder on an existing database kept {left!r}')
         os.remove(path)
+    kept = []
     with sqlite_federated_data.SQLiteFederatedDataBuilder(path) as builder:
       pos = 0
 
@@ -649,13 +650,25 @@ def run_sqlite(case):
         # what add_many() has returned from is in the file: a reader on its own
         # connection sees it while the builder is still open (a builder used
         # without `with`, a crash between two batches)
-        peek = sqlite_federated_data.SQLiteFederatedData.new(path)
+        if case.get('peek') == 'kept':
+          # ONE reader object follows the build: opened after the first batch,
+          # asked again after every later one (a dashboard on a growing file)
+          if not kept:
+            kept.append(sqlite_federated_data.SQLiteFederatedData.new(path))
+          peek = kept[0]
+        else:
+          peek = sqlite_federated_data.SQLiteFederatedData.new(path)
         try:
+          count = peek.num_clients()
           have = sorted(peek.client_ids())
+          sized = sorted(i for i, _ in peek.client_sizes())
         finally:
-          peek._connection.close()  # pylint: disable=protected-access
-        require(have == sorted(ids[:pos]), 'sqlite:batch_not_visible_after_add_many',
-                lambda: f'{where}: {len(have)} clients readable, {pos} written')
+          if not kept:
+            peek._connection.close()  # pylint: disable=protected-access
+        require(have == sorted(ids[:pos]) and sized == have and count == len(have),
+                'sqlite:batch_not_visible_after_add_many',
+                lambda: f'{where}: num_clients {count}, {len(have)} ids, {len(sized)} sizes '
+                        f'readable, {pos} written')
 
       for size in case['chunks']:
         chunk, pos = pairs[pos:pos + size], pos + size
@@ -670,6 +683,9 @@ def run_sqlite(case):
         pos = len(pairs)
         if case.get('peek'):
           written_so_far('after the last batch')
+    if kept:
+      written_so_far('after the builder was closed')
+      kept.pop()._connection.close()  # pylint: disable=protected-access
     fd = sqlite_federated_data.SQLiteFederatedData.new(path)
     try:
       require(fd.num_clients() == len(ids), 'sqlite:num_clients',
@@ -1154,7 +1170,7 @@ def sqlite_cases(draw, tier):
                            st.binary(max_size=5).map(bytes.hex)))
   return {'clients': clients, 'chunks': chunks, 'missing': missing,
           'as_iterator': draw(st.booleans()), 'buffer': draw(st.integers(1, 4)),
-          'peek': draw(st.booleans()), 'stale_file': draw(st.integers(0, 3)) == 0}
+          'peek': draw(st.sampled_from([False, True, 'kept'])), 'stale_file': draw(st.integers(0, 3)) == 0}
 
 
 # --- pickled states
@@ -1350,6 +1366,8 @@ def sqlite_labels(case):
     ls.add('add_many:tail_call')
   if len([s for s in case['chunks'] if s]) > 1:
     ls.add('add_many:several_calls')
+  if case.get('peek') == 'kept':
+    ls.add('one_reader_follows_the_build')
   return sorted(ls)
 
 
